@@ -40,4 +40,15 @@ theorem testnet_solonet_pending_tie (h : Nat) (hh : h < 18446744073709551615) :
   unfold pendingOfTable testnetPendingTable solonetPendingTable
   simp [List.find?, hh]
 
+
+/-- the keeper's maturity filter (C25 anchor account/utxo_keeper.go:findUtxos): a matching output id
+    is recorded in `listed` BEFORE its maturity is looked at, so the first (wallet-DB) record of an
+    output decides, whatever its maturity (model: `matching` = `distinctById`, then the `mature`
+    split; theorem `listed_usable_is_mature_confirmed`) -/
+theorem findUtxos_dedupe_before_maturity_tie : findUtxosAppend =
+    ["if u.AccountID != accountID || u.AssetID != *assetID || !bytes.Equal(u.Vote, vote) { return }",
+     "if _, ok := listed[u.OutputID]; ok { return }", "listed[u.OutputID] = struct{}{}",
+     "if u.ValidHeight > currentHeight { immatureAmount += u.Amount } else { utxos = append(utxos, u) }"] ∧
+    findUtxosListingOrder = ["for utxoIter.Next()", "if !useUnconfirmed return", "range uk.unconfirmed"] := by decide
+
 end BytomModel.Ties.C25
